@@ -266,7 +266,7 @@ impl Memfs {
         // Validate path components
         let dir = path.dir()?;
         if let Some(entry) = guard.get_entry(&dir) {
-            if !entry.is_dir() {
+            if !entry.is_dir() || entry.is_symlink() {
                 return Err(PathError::is_not_dir(dir).into());
             }
         } else {
